@@ -18,15 +18,18 @@ Import ListNotations.
 (* canonical DFA state: info and edges (symbol, canonical target), symbols increasing *)
 Inductive cstate := CS (acc term : bool) (tags : list N) (es : list (N * nat)).
 
-(* observation tree: one child per symbol of sigma, no children at the depth limit *)
-Inductive obs := Dead | Live (acc term : bool) (tags : list N) (kids : list obs).
+(* observation tree: one child per symbol of sigma, no children at the depth limit.
+   Per string s: Dead / Live = transition_many(start, s) is None / Some state;
+   acc, term, tags = info(state); m = DFA::matches(s). *)
+Inductive obs := Dead (m : bool) | Live (acc term m : bool) (tags : list N) (kids : list obs).
 
 Inductive c15_case :=
 | Built (e : regex) (sigma : list N)
         (impl_nfa : nfa) (impl_dfa : list cstate) (impl_obs : obs)
         (probes : list (list N * obs))
-        (consistent : bool)   (* matches(s) = info(transition_many(start,s)).is_accepting etc. *)
-| Crashed (e : regex).        (* the implementation panicked while building / compiling / stepping *)
+        (consistent : bool)   (* single-stepping with transition agrees with transition_many on every string *)
+| Crashed (e : regex)         (* the implementation panicked while building / compiling / stepping *)
+| Skipped (e : regex).        (* automaton too large for the observation budget: nothing observed *)
 
 (* ---------- equality tests ---------- *)
 
@@ -108,10 +111,10 @@ Definition info_eqb (i : dinfo) (acc term : bool) (tags : list N) : bool :=
 
 Fixpoint obs_model (d : dfa) (sigma : list N) (q : option nat) (o : obs) {struct o} : bool :=
   match o, q with
-  | Dead, None => true
-  | Live acc term tags kids, Some q =>
+  | Dead m, None => negb m
+  | Live acc term m tags kids, Some q =>
       match info d q with
-      | Ok i => info_eqb i acc term tags
+      | Ok i => info_eqb i acc term tags && Bool.eqb m (accepting i)
       | _ => false
       end
       && (is_nil kids ||
@@ -128,10 +131,14 @@ Fixpoint obs_model (d : dfa) (sigma : list N) (q : option nat) (o : obs) {struct
   | _, _ => false
   end.
 
+Definition obs_matches (o : obs) : bool :=
+  match o with Dead m => m | Live _ _ m _ _ => m end.
+
+(* probes go through the model of transition_many and of DFA::matches literally *)
 Definition probe_model (d : dfa) (p : list N * obs) : bool :=
-  match transition_many d (dstart d) (fst p) with
-  | Ok t => obs_model d [] t (snd p)
-  | _ => false
+  match transition_many d (dstart d) (fst p), dfa_matches d (fst p) with
+  | Ok t, Ok m => obs_model d [] t (snd p) && Bool.eqb m (obs_matches (snd p))
+  | _, _ => false
   end.
 
 (* ---------- the property predicate, from the expression alone ---------- *)
@@ -146,13 +153,23 @@ Definition deriv_alts (c : N) (alts : list (N * regex)) : list (N * regex) :=
 (* r : residual of the expression after the string read so far; alts : residuals
    of the tagged alternatives; wf : the expression has the tagged-choice shape,
    otherwise tags are not part of the predicate *)
-Fixpoint obs_spec (sigma : list N) (wf : bool) (r : regex) (alts : list (N * regex)) (o : obs)
+(* every tag of the expression (for expressions outside the tagged-choice shape
+   the predicate only requires reported tags to be tags of the expression) *)
+Fixpoint all_tags (e : regex) : list N :=
+  match e with
+  | Tag t e => t :: all_tags e
+  | Seq es | Choice es => flat_map all_tags es
+  | Plus e | Opt e | Many e => all_tags e
+  | _ => []
+  end.
+
+Fixpoint obs_spec (sigma : list N) (wf : bool) (ts : list N) (r : regex) (alts : list (N * regex)) (o : obs)
          {struct o} : bool :=
   match o with
-  | Dead => isempty r
-  | Live acc term tags kids =>
-      Bool.eqb acc (nullable r)
-      && (if wf then nlist_eqb tags (spec_tags alts) else true)
+  | Dead m => isempty r && negb m
+  | Live acc term m tags kids =>
+      Bool.eqb acc (nullable r) && Bool.eqb m (nullable r)
+      && (if wf then nlist_eqb tags (spec_tags alts) else forallb (fun t => existsb (N.eqb t) ts) tags)
       (* `if`, not `||`: vm_compute is call by value *)
       && (if term then forallb (fun c => isempty (deriv c r)) all_bytes else true)
       && (is_nil kids ||
@@ -160,20 +177,22 @@ Fixpoint obs_spec (sigma : list N) (wf : bool) (r : regex) (alts : list (N * reg
              match cs, ks with
              | [], [] => true
              | c :: cs', k :: ks' =>
-                 obs_spec sigma wf (deriv c r) (deriv_alts c alts) k && go cs' ks'
+                 obs_spec sigma wf ts (deriv c r) (deriv_alts c alts) k && go cs' ks'
              | _, _ => false
              end) sigma kids)
   end.
 
 Definition probe_spec (wf : bool) (e : regex) (p : list N * obs) : bool :=
-  obs_spec [] wf (derivs (fst p) e)
-           (fold_left (fun al c => deriv_alts c al) (fst p) (tagalts e)) (snd p).
+  obs_spec [] wf (all_tags e) (derivs (fst p) e)
+           (fold_left (fun al c => deriv_alts c al) (fst p) (tagalts e)) (snd p)
+  && Bool.eqb (obs_matches (snd p)) (matcher e (fst p)).
 
 Definition bytes_ok (s : list N) : bool := forallb (fun c => N.ltb c 256) s.
 
 Definition c15_check (c : c15_case) : bool * bool :=
   match c with
   | Crashed _ => (false, false)         (* building / compiling / stepping never panics *)
+  | Skipped _ => (true, true)
   | Built e sigma infa idfa iobs probes consistent =>
       let wf := tagwf e in
       ( consistent
@@ -190,7 +209,7 @@ Definition c15_check (c : c15_case) : bool * bool :=
            end,
         consistent
         && bytes_ok sigma && forallb (fun p => bytes_ok (fst p)) probes
-        && obs_spec sigma wf e (tagalts e) iobs
+        && obs_spec sigma wf (all_tags e) e (tagalts e) iobs
         && forallb (probe_spec wf e) probes )
   end.
 
